@@ -365,6 +365,16 @@ pub mod trace {
         static KEEP: RefCell<Option<Vec<String>>> = const { RefCell::new(None) };
     }
 
+    /// process-wide capture (events of every thread, e.g. the worker threads of an FFI runtime)
+    static GLOBAL: std::sync::Mutex<Option<Vec<String>>> = std::sync::Mutex::new(None);
+
+    pub fn global_capture(on: bool) -> Vec<String> {
+        let mut g = GLOBAL.lock().unwrap();
+        let old = g.take().unwrap_or_default();
+        *g = if on { Some(Vec::new()) } else { None };
+        old
+    }
+
     struct Vis<'a>(&'a mut String);
     impl tracing_core::field::Visit for Vis<'_> {
         fn record_debug(&mut self, field: &Field, value: &dyn std::fmt::Debug) {
@@ -406,6 +416,11 @@ pub mod trace {
                     v.push(format!("{} {}", event.metadata().level(), s));
                 }
             });
+            if let Ok(mut g) = GLOBAL.try_lock() {
+                if let Some(v) = g.as_mut() {
+                    v.push(format!("{} {}", event.metadata().level(), s));
+                }
+            }
         }
         fn enter(&self, _span: &Id) {}
         fn exit(&self, _span: &Id) {}
